@@ -162,23 +162,32 @@ class Net:
         return out
 
 
-def air_frames(med, src=None, include_unreceived=True):
-    """distinct data packets in air order: consecutive attempts of one payload load collapse"""
+def air_frames(med, src=None, include_unreceived=True, merge_all=False):
+    """distinct data packets in air order: the attempts of one payload load (same sender, PID, payload,
+    address) collapse into one entry - consecutive attempts only, or, with merge_all, also attempts that
+    other nodes' transmissions are interleaved with"""
     out = []
     last = None
+    seen = {}
     for e in med.log:
         if e["ack"] or (src is not None and e["src"] != src):
             continue
         k = (e["src"], e["pid"], e["pl"], e["addr"])
-        if k == last:
+        tgt = None
+        if merge_all and k in seen:
+            tgt = seen[k]
+        elif k == last:
+            tgt = out[-1]
+        if tgt is not None:
             if e["rx"]:
-                out[-1]["rx"] = sorted(set(out[-1]["rx"]) | set(e["rx"]))
-            out[-1]["attempts"] += 1
-            out[-1]["acked"] = out[-1]["acked"] or e["acked"]
+                tgt["rx"] = sorted(set(tgt["rx"]) | set(e["rx"]))
+            tgt["attempts"] += 1
+            tgt["acked"] = tgt["acked"] or e["acked"]
             continue
         last = k
         d = dict(e)
         d["attempts"] = 1
         d["rx"] = list(e["rx"])
         out.append(d)
+        seen[k] = d
     return out
